@@ -140,3 +140,101 @@ def run_selftest(root, fam):
            "failed": [r for r in res if r[1] == "FAIL"], "wall_s": round(wall, 2),
            "must_fire": sum(1 for v in corpus if v["expect"].startswith("fire")), "must_stay_silent": sum(1 for v in corpus if v["expect"] == "silent")}
     return out
+
+
+# ---------------------------------------------------------------------------------------------------------
+# (e) the two corpora of independent sub-agents, applied to the CURRENT tree in memory:
+#     seeded/<id>/patch.diff   - confirmed breaking changes of this property: each must be reported (exit 1)
+#     refactors/<id>/patch.diff - confirmed behaviour-preserving refactorings: each must stay silent
+#     Patches that no longer apply to the current tree are counted as "not applicable", never as a result.
+
+def _apply_in_memory(root, patch_path):
+    """-> {relpath: new source} or None when the patch does not apply to the files of `root`."""
+    import shutil
+    import subprocess
+    import tempfile
+    try:
+        txt = open(patch_path, encoding="utf-8", errors="replace").read()
+    except OSError:
+        return None
+    files = sorted({l[6:].strip() for l in txt.splitlines() if l.startswith("+++ b/")})
+    files = [f for f in files if f.startswith("joblib/") and f.endswith(".py")]
+    if not files:
+        return None
+    tmp = tempfile.mkdtemp(prefix="sa-patch-")
+    try:
+        for f in files:
+            src = os.path.join(root, f)
+            os.makedirs(os.path.dirname(os.path.join(tmp, f)), exist_ok=True)
+            if os.path.exists(src):
+                shutil.copy(src, os.path.join(tmp, f))
+        r = subprocess.run(["git", "apply", "--whitespace=nowarn", os.path.abspath(patch_path)], cwd=tmp, capture_output=True, text=True)
+        if r.returncode != 0:
+            return None
+        out = {}
+        for f in files:
+            p = os.path.join(tmp, f)
+            if os.path.exists(p):
+                out[f] = open(p, encoding="utf-8").read()
+        return out
+    finally:
+        shutil.rmtree(tmp, ignore_errors=True)
+
+
+def _corpus_job(args):
+    kind, sid, root, pids, patch = args
+    import io
+    import sys as _sys
+    from .cli import run_property
+    ov = _apply_in_memory(root, patch)
+    if ov is None:
+        return (kind, sid, "n/a", [])
+    res = []
+    old = _sys.stdout
+    _sys.stdout = io.StringIO()
+    try:
+        for pid in pids:
+            try:
+                code, c = run_property(pid, root, "quick", overrides=ov, quiet=True, write_evidence=False, known=[])
+                res.append((pid, code, sorted({o.clause for o in c.violations()})[:6]))
+            except SyntaxError:
+                res.append((pid, 2, ["does not parse"]))
+            except Exception as e:  # analyser exception on a variant: reported, never hidden
+                res.append((pid, 2, ["%s: %s" % (type(e).__name__, e)]))
+    finally:
+        _sys.stdout = old
+    return (kind, sid, "ran", res)
+
+
+def run_corpora(root, pid, jobs=16):
+    from concurrent.futures import ProcessPoolExecutor
+    from .rules.total import _FILE_PROPS
+    work = []
+    sd = os.path.join(VERIF, "seeded")
+    if os.path.isdir(sd):
+        for sid in sorted(os.listdir(sd)):
+            if sid.split("-")[0] == pid and os.path.exists(os.path.join(sd, sid, "patch.diff")):
+                work.append(("seed", sid, root, [pid], os.path.join(sd, sid, "patch.diff")))
+    rd = os.path.join(VERIF, "refactors")
+    if os.path.isdir(rd):
+        for sid in sorted(os.listdir(rd)):
+            p = os.path.join(rd, sid, "patch.diff")
+            if not os.path.exists(p):
+                continue
+            touched = {l[6:].strip() for l in open(p, encoding="utf-8", errors="replace") if l.startswith("+++ b/")}
+            if any(pid in _FILE_PROPS.get(f, ()) for f in touched):
+                work.append(("refactor", sid, root, [pid], p))
+    if not work:
+        return {"seeded_changes": 0, "refactorings": 0}
+    with ProcessPoolExecutor(jobs) as ex:
+        res = list(ex.map(_corpus_job, work, chunksize=2))
+    seeds = [r for r in res if r[0] == "seed" and r[2] == "ran"]
+    refs = [r for r in res if r[0] == "refactor" and r[2] == "ran"]
+    return {
+        "seeded_changes": len(seeds), "seeded_changes_reported": sum(1 for r in seeds if any(code == 1 for (_, code, _) in r[3])),
+        "seeded_changes_not_reported": [r[1] for r in seeds if not any(code == 1 for (_, code, _) in r[3])],
+        "seeded_changes_not_applicable_to_this_tree": [r[1] for r in res if r[0] == "seed" and r[2] == "n/a"],
+        "refactorings": len(refs), "refactorings_silent": sum(1 for r in refs if all(code == 0 for (_, code, _) in r[3])),
+        "refactorings_not_silent": [[r[1], [(p_, c_, cl) for (p_, c_, cl) in r[3] if c_ != 0]] for r in refs if not all(code == 0 for (_, code, _) in r[3])],
+        "refactorings_not_applicable_to_this_tree": [r[1] for r in res if r[0] == "refactor" and r[2] == "n/a"],
+    }
